@@ -57,20 +57,32 @@ pub fn consumed_by_server(port: u16) -> u64 {
 /// lock file created exclusively (it names the owner; a dead owner's claim is taken over).
 fn claim_port(p: u16) -> bool {
     use std::io::Write as W;
+    use std::os::unix::io::AsRawFd;
     let dir = std::path::Path::new("/tmp/mcverif-portlocks");
     let _ = std::fs::create_dir_all(dir);
+    // every look at / change of the claim files happens under one advisory lock: taking over the claim of a dead owner
+    // is "look, remove, create", and two processes doing that at the same time would both end up owning the port
+    let guard = match std::fs::OpenOptions::new().write(true).create(true).open(dir.join(".lock")) {
+        Ok(f) => f,
+        Err(_) => return false,
+    };
+    if unsafe { libc::flock(guard.as_raw_fd(), libc::LOCK_EX) } != 0 {
+        return false;
+    }
     let path = dir.join(p.to_string());
+    let mut mine = false;
     for _ in 0..2 {
         match std::fs::OpenOptions::new().write(true).create_new(true).open(&path) {
             Ok(mut f) => {
                 let _ = write!(f, "{}", std::process::id());
-                return true;
+                mine = true;
+                break;
             }
             Err(_) => {
                 let owner = std::fs::read_to_string(&path).ok().and_then(|s| s.trim().parse::<u32>().ok());
                 match owner {
-                    Some(pid) if pid == std::process::id() => return false, // one port, one server per process
-                    Some(pid) if std::path::Path::new(&format!("/proc/{}", pid)).exists() => return false,
+                    Some(pid) if pid == std::process::id() => break, // one port, one server per process
+                    Some(pid) if std::path::Path::new(&format!("/proc/{}", pid)).exists() => break,
                     _ => {
                         let _ = std::fs::remove_file(&path);
                     }
@@ -78,7 +90,8 @@ fn claim_port(p: u16) -> bool {
             }
         }
     }
-    false
+    unsafe { libc::flock(guard.as_raw_fd(), libc::LOCK_UN) };
+    mine
 }
 
 pub fn free_port(base: u16) -> u16 {
